@@ -125,6 +125,13 @@ PersistNotInvoked ==
   /\ up /\ pend.ph = "taken" /\ pend' = NoPend
   /\ UNCHANGED <<log, logLo, up, dbfile, wal, modS, staging, snaps, fullNeeded, fp, nsnap, ncrash>>
 
+(* Reaping consolidates the catalog: the newest snapshot's full base and every incremental after it become *)
+(* one full snapshot with the same index (snapshot store reap; its crash-safety is C07's SnapStore.tla)    *)
+Reap ==
+  /\ up /\ pend.ph = "none" /\ Len(snaps) > 1
+  /\ snaps' = <<[kind |-> "full", idx |-> NewestIdx, db |-> Restored, segs |-> <<>>]>>
+  /\ UNCHANGED <<log, logLo, up, dbfile, wal, modS, staging, fullNeeded, fp, pend, nsnap, ncrash>>
+
 (* ------------------------------- crash and restart ------------------------------- *)
 Crash == /\ up /\ ncrash < MaxCrashes /\ up' = FALSE /\ pend' = NoPend /\ ncrash' = ncrash + 1
          /\ UNCHANGED <<log, logLo, dbfile, wal, modS, staging, snaps, fullNeeded, fp, nsnap>>
@@ -165,7 +172,7 @@ Open(recover) ==
   /\ UNCHANGED <<log, nsnap, ncrash>>
 
 Next == \/ \E S \in SUBSET Page : Write(S)
-        \/ Load \/ SnapTake \/ PersistData \/ Finalize \/ SinkClose \/ PersistNotInvoked
+        \/ Load \/ SnapTake \/ PersistData \/ Finalize \/ SinkClose \/ PersistNotInvoked \/ Reap
         \/ Crash \/ Stop \/ \E r \in BOOLEAN : Open(r)
 Spec == Init /\ [][Next]_vars
 
